@@ -988,11 +988,21 @@ func (w *verifC32World) corruptZipOrWhole(c string) []byte {
 func (w *verifC32World) judgeRestore(r *eng.Run, c verifC32Case, record bool) verifC32RestoreResult {
 	res := w.runRestore(c)
 	if len(res.Problems) > 0 {
-		again := w.runRestore(c)
-		if (len(again.Problems) > 0) != (len(res.Problems) > 0) {
-			eng.HarnessError("C32: restore verdict not reproducible for %s: %v vs %v", c.key(), res.Problems, again.Problems)
+		// Re-run before believing it. The order in which Restore walks the entries is not owned by the
+		// harness and the verdict may depend on it, so the comparison waits for the same order to come up again.
+		confirmed := "not re-observed with the same entry order in 12 further runs"
+		for i := 0; i < 12; i++ {
+			again := w.runRestore(c)
+			if strings.Join(again.TarOrder, ",") != strings.Join(res.TarOrder, ",") {
+				continue
+			}
+			if (len(again.Problems) > 0) != (len(res.Problems) > 0) {
+				eng.HarnessError("C32: restore verdict not reproducible for %s with entry order %v: %v vs %v", c.key(), res.TarOrder, res.Problems, again.Problems)
+			}
+			confirmed = "reproduced with the same entry order"
+			break
 		}
-		r.Violation(c.key(), fmt.Sprintf("%v (Restore returned %q; entries processed in order %v)", res.Problems, res.Err, res.TarOrder), c)
+		r.Violation(c.key(), fmt.Sprintf("%v (Restore returned %q; entries processed in order %v; %s)", res.Problems, res.Err, res.TarOrder, confirmed), c)
 	}
 	return res
 }
@@ -1020,6 +1030,12 @@ func TestC32(t *testing.T) {
 
 	if rc := r.ReplayCase(); rc != nil {
 		var c verifC32Case
+		var crash struct {
+			Current string `json:"current_case"`
+		}
+		if json.Unmarshal(rc, &crash) == nil && crash.Current != "" {
+			rc = json.RawMessage(crash.Current) // artefact of a worker crash: the case it was running
+		}
 		if err := json.Unmarshal(rc, &c); err != nil {
 			eng.HarnessError("C32: bad replay case: %v", err)
 		}
